@@ -111,6 +111,7 @@ class Engine:
         self.prefix = list(prefix)
         self.trace = []
         self.counter = {}
+        self.fresh_log = []
         self.st = State()
         self.spec_mode = 0
         self.heap_override = None
@@ -121,7 +122,9 @@ class Engine:
     def fresh_name(self, hint):
         n = self.counter.get(hint, 0)
         self.counter[hint] = n + 1
-        return "%s!%d" % (hint, n)
+        name = "%s!%d" % (hint, n)
+        self.fresh_log.append(name)
+        return name
 
     def fresh(self, ty, hint="v"):
         k = ty.kind
@@ -431,6 +434,14 @@ class Engine:
         raise Unsupported("no term for %r as %r" % (v, ty))
 
     def truth(self, v):
+        if isinstance(v, P) and v.ty.kind == "set":
+            # non-empty: fresh Bool b with (b => S[w]) and (forall x. S[x] => b)
+            b = z3.Bool(self.fresh_name("set.nonempty"))
+            w = z3.Const(self.fresh_name("set.w"), sort_of(v.ty.args[0]))
+            x = z3.Const(self.fresh_name("set.any"), sort_of(v.ty.args[0]))
+            self.st.pc.append(z3.Implies(b, z3.Select(v.term, w)))
+            self.st.schemas.append(Schema("set.nonempty", [x], z3.Implies(z3.Select(v.term, x), b)))
+            return b
         if isinstance(v, P):
             t = v.ty
             if t == BOOL:
@@ -450,6 +461,10 @@ class Engine:
             if v.size is None:
                 raise Unsupported("truthiness of map without size")
             return v.size > 0
+        if isinstance(v, Special) and v.tag == "emptyset":
+            return z3.BoolVal(False)
+        if isinstance(v, Special) and v.tag == "anyset":
+            return z3.Bool(self.fresh_name("anyset.nonempty"))
         if isinstance(v, (Ref, Fun, Special)):
             if isinstance(v, Ref) and v.ty.kind in ("map", "bimap", "list", "setcell"):
                 return self.truth(self.heap()[v.rid])
